@@ -1127,3 +1127,43 @@ func ruleModPowSign(c *Ctx) {
 		},
 	}})
 }
+
+// ---------------------------------------------------------------------------
+// array-max (C17): BinReader.ReadArray allocates the whole slice for the announced count before it reads the first
+// element; without an explicit maximum the count may be anything up to MaxArraySize (16M), i.e. a few bytes of input
+// buy hundreds of megabytes (2.5 GB for NEF method tokens). Every ReadArray of the node's decoders names the maximum
+// its format allows; the sites that read the node's own database records are tabled.
+var arrayMaxTabled = map[string]string{
+	"pkg/core/dao.(*Simple).GetHeaderHashes":       "header hash pages are written by the node itself (StoreHeaderHashes) and read back from its own database",
+	"pkg/core/state.(*AppExecResult).DecodeBinary": "application logs are written by the node itself and read back from its own database (RPC getapplicationlog)",
+	"pkg/crypto/keys.(*PublicKeys).DecodeBytes":    "exported helper without a caller in the node (the node keeps key lists as stack items)",
+}
+
+func ruleArrayMax(c *Ctx) {
+	n, nb := 0, 0
+	for _, fd := range c.P.AllFuncDecls() {
+		rel := pkgRel(fd.Pkg.Types)
+		if fd.Decl.Body == nil || !strings.HasPrefix(rel, "pkg/") || strings.HasPrefix(rel, "pkg/rpcclient") || rel == "pkg/io" {
+			continue
+		}
+		f := c.P.NewFuncCFG(fd)
+		if f == nil {
+			continue
+		}
+		for _, st := range f.CallSites("pkg/io.(*BinReader).ReadArray") {
+			n++
+			key := fmt.Sprintf("array-max.%s#%d", FuncKey(fd.Obj), n)
+			switch {
+			case len(st.call.Args) >= 2:
+				nb++
+				c.OK(key, c.P.Pos(st.call.Pos()), "explicit maximum: "+trunc(types.ExprString(st.call.Args[1]), 50))
+			case arrayMaxTabled[FuncKey(fd.Obj)] != "":
+				c.OK(key, c.P.Pos(st.call.Pos()), "tabled: "+arrayMaxTabled[FuncKey(fd.Obj)])
+			default:
+				c.Fail(key, c.P.Pos(st.call.Pos()), fmt.Sprintf("%s reads an array of %s without a maximum: the slice for any announced count up to 16M elements is allocated before the first element is read", FuncKey(fd.Obj), trunc(types.ExprString(st.call.Args[0]), 40)))
+			}
+		}
+	}
+	c.Floor("ReadArray sites", n, 15)
+	c.Floor("ReadArray sites with an explicit maximum", nb, 9)
+}
